@@ -1,7 +1,7 @@
 (* C19: proofs about the model fragments REGENERATED from analyzer/analyzer.go on this run (Gen_Adapter.v). *)
 From Coq Require Import List ZArith Lia Bool.
 From RG.Base Require Import Outcome GoSlice.
-From RG.Adapter Require Import Str Model.
+From RG.Adapter Require Import Str Model Conc.
 From RGW Require Import Gen_Adapter.
 Import ListNotations.
 Local Open Scope Z_scope.
@@ -82,3 +82,18 @@ Lemma gen_sites_cover :
   forallb (fun f => existsb (fun s => let '(_, f', w, _, _) := s in w && match f, f' with FEngine, FEngine | FErrored, FErrored | FPool, FPool => true | _, _ => false end) gen_adapter_sites)
           [FEngine; FErrored; FPool] = true.
 Proof. vm_compute. reflexivity. Qed.
+
+(* ---- passes running in parallel: the regenerated tree passes the static check of Conc.v *)
+Lemma gen_tree_ok : tree_ok false false false false gen_prepare_tree = true.
+Proof. vm_compute. reflexivity. Qed.
+
+Lemma gen_no_race lo c : reachable gen_prepare_tree lo c -> ~ race c.
+Proof. exact (no_race gen_prepare_tree lo gen_tree_ok c). Qed.
+
+Lemma gen_linearizable lo c :
+  reachable gen_prepare_tree lo c -> c_mu c = None ->
+  hist_rel lo (gh_hist (c_gh c)) (c_g c) (gh_total (c_gh c)).
+Proof. exact (linearizable gen_prepare_tree lo gen_tree_ok gen_prepare_ok c). Qed.
+
+Lemma gen_concurrent_loaded_once lo c : reachable gen_prepare_tree lo c -> (gh_total (c_gh c) <= 1)%nat.
+Proof. exact (concurrent_loaded_once gen_prepare_tree lo gen_tree_ok gen_prepare_ok c). Qed.
